@@ -710,6 +710,11 @@ func near(n, limit int) bool { return n >= limit-2 && n <= limit+2 }
 
 // ---------------------------------------------------------------- runCase
 
+// tolerateKnown (C11_TOLERATE_KNOWN=1, together with C11_INCLUDE_KNOWN=1): misses that fall
+// into the input class of a reported finding are counted as excluded instead of failing, to
+// see what else the wider domain holds.
+var tolerateKnown = os.Getenv("C11_TOLERATE_KNOWN") != ""
+
 var requestTime = time.UnixMilli(1_700_000_000_000).UTC()
 
 type built struct {
@@ -771,9 +776,15 @@ func fmtToks(ts []string) string {
 }
 
 // must: the query text, parsed under the mapping, matches some index entry of the document.
-func (r *runner) must(what string, o *occ, text string, qkind int) error {
+func (r *runner) must(what string, o *occ, text string, qkind, st int) error {
 	r.lab[quoteNames[qkind]] = true
+	known := r.knownClass(o, text, st)
+	what = known + what
 	q, err := parser.ParseSeqQL(text, r.mapping)
+	if err != nil && known != "" && tolerateKnown {
+		r.res.Excluded++
+		return nil
+	}
 	if err != nil {
 		return evid.Failf(what+"-parse", "%s field %q (size %d), value %s: query %s does not parse: %v",
 			o.Type, o.Title, o.Size, short(string(o.Val)), short(text), err)
@@ -789,6 +800,10 @@ func (r *runner) must(what string, o *occ, text string, qkind int) error {
 			found = true
 			break
 		}
+	}
+	if !found && known != "" && tolerateKnown {
+		r.res.Excluded++
+		return nil
 	}
 	if !found {
 		return evid.Failf(what+"-miss", "%s field %q (size %d, case_sensitive=%v, partial=%v, max_token_size=%d), value %s: query %s parsed as %s does not match; tokens emitted under %q: %s",
@@ -815,16 +830,30 @@ func (r *runner) spell(field, s string, st int) string {
 	return v
 }
 
+// knownClass prefixes the signature of a failure with the input class of an already
+// reported finding, so that listing it as known cannot hide failures of other inputs.
+func (r *runner) knownClass(o *occ, text string, st int) string {
+	switch {
+	case r.c.CS && !utf8.Valid(o.Val):
+		return "D-cs-invalid-bytes/"
+	case st&stEscOtherQuote != 0 && (strings.Contains(text, `\"`) || strings.Contains(text, `\'`)):
+		return "D-esc-other-quote/"
+	case st&stHexBytes != 0 && strings.Contains(text, `\x`):
+		return "D-hex-byte-escape/"
+	}
+	return ""
+}
+
 func (r *runner) exact(what string, o *occ, field, s string) error {
 	st := r.style()
 	text, q := exactQuery(field, r.spell(field, s, st), st)
-	return r.must(what, o, text, q)
+	return r.must(what, o, text, q, st)
 }
 
 func (r *runner) prefix(what string, o *occ, field, s string) error {
 	st := r.style()
 	text, q := prefixQuery(field, r.spell(field, s, st), st)
-	return r.must(what, o, text, q)
+	return r.must(what, o, text, q, st)
 }
 
 func (r *runner) checkOcc(o *occ) error {
@@ -921,6 +950,9 @@ func (r *runner) checkOcc(o *occ) error {
 		}
 		if near(len(v), limit) {
 			r.lab["limit:value-within-2"] = true
+			if o.Size == 0 {
+				r.lab["limit:value-within-2-of-32768"] = true
+			}
 			r.res.NonTrivial = true
 		}
 		over := len(v) > limit
